@@ -649,7 +649,8 @@ func TestMergeC08C09(t *testing.T) {
 				i := int(a[3] - '0')
 				id := rapid.SampledFrom(distinct(owesCount[i])).Draw(t, lab+"id")
 				owesCount[i] = removeFirst(owesCount[i], id)
-				doEmit(i, mocrelay.NewServerCountMsg(id, uint64(rapid.IntRange(0, 9).Draw(t, lab+"n")), nil))
+				cnt := rapid.OneOf(rapid.Uint64Range(0, 9), rapid.SampledFrom([]uint64{1<<63 - 1, 1 << 63, 1<<63 + 1000, 1<<64 - 1})).Draw(t, lab+"n")
+				doEmit(i, mocrelay.NewServerCountMsg(id, cnt, nil))
 			}
 		}
 		// drain to quiescence: finish the broadcast, then all owed replies in a generated order
